@@ -230,3 +230,9 @@ PENDING = []
 for _p in PENDING:
     if _p not in CLAIMED:
         NOT_APPLICABLE[_p] = "not claimed yet: check under construction (designed in DESIGN.md section 4; will be claimed once its machinery is committed)"
+
+
+# addenda (what the checks gained while the seeded changes of rounds 2-5 were worked through)
+_ADDENDA = {'C01': ' Histories also contain: a side file written earlier in the same process (the same user-shaped feature with another event shape, the same metadata dictionary object), and a lossy first access (dtype conversion) of the reopened file before the plain reads.', 'C02': ' Also: exports onto existing paths (override), sources whose image series is shorter than the scalar features, a feature touched with a lossy dtype before it is exported, and the same hierarchy child exported again after its parent selected more events.', 'C03': ' Also: half-entered ranges (apply raises, completed or dropped afterwards), polygons removed by editing the configuration list, a look-alike dataset filtered before, settings transferred to a second dataset that registers polygons of its own.', 'C04': ' Also: index-array access of non-scalar child features (permutations, repeats), reset_filter() on the youngest child followed by the same exclusions, another hierarchy with other traces drawn before, a temporary feature initialised from another dataset that must keep its values.', 'C06': ' Also: grandchild backing, large arrays with tail-only replacements, temporary features set through the child (read without explicit refresh), a recipe that refuses its input (raises) and is repaired afterwards, sibling features read in a row, settings changed back.', 'C07': ' Also: the same child exported again after an equal-count reselection of its parent, children closed while the source stays in use, results written to by the caller (mutate-then-read), a second referrer read at the same time.', 'C08': ' Also: inputs of realistic size (80x250 images at multiples of the default chunk length), output names without/with foreign suffix, tools called in-process as well as isolated, a feature registered and a file repaired in place between two copies of one path, marker logs that are empty.', 'C09': ' Also: an input restamped after an earlier join, a join into a path used before, a split interrupted by an I/O error and run again, inputs whose features differ in length (judged for part size, duplicates and order only).', 'C10': ' Further fault kinds: KeyboardInterrupt at a fault point, persistent errors from a point on (full disk; rename/unlink keep working), bursts of 2..5 consecutive errors, torn close of a temporary file (half flushed, ENOSPC), fault followed by a fault-free restart; further pre-states: unloadable leftover at the output path, output path that is a symbolic link to the input.', 'C13': ' Also: feature-subset exports, exports onto existing files, three writer sessions with an unrectified middle one, switched-off lasers, a temporary feature deregistered between two writers, files checked intact and then corrupted in place.', 'C14': ' Weather also contains hosts that accept/refuse per attempt after a seeded pattern (one host or all, from the first open on), availability verified before the weather changes, objects that vanish (403/404) after verification, over-long path components and remote-typed definitions with local paths.', 'C17': ' Also: tuple arguments whose digits concatenate identically, summary reads (min/max/mean), a grandchild with root re-selections, contours of invalid masks, files replaced keeping their mtime, and look-alike objects (same first mask / same first feature) handled earlier in the process.', 'C19': ' Also: mid-body stalls (header delivered, body cut after k bytes), servers without ETag, a server that honours If-Range, further file objects on the same URL (other chunk grid, replaced resource) and on the same host.', 'C20': ' Also: feature objects held across a refresh (self-consistency), replace in place after the file was read, a look-alike in-memory hierarchy summarised before the judged one.'}
+for _k, _v in _ADDENDA.items():
+    CLAIMED[_k]["text"] = CLAIMED[_k]["text"] + _v
